@@ -1823,7 +1823,7 @@ def evaluate__round(self: XPathFunction, context: ta.ContextType = None) \
             if isinstance(context, XPathSchemaContext):
                 return []
             raise self.error('XPTY0004') from None
-        return round(arg)
+        return type(arg)(round(arg))
     except decimal.DecimalException as err:
         if isinstance(context, XPathSchemaContext):
             return []
